@@ -45,8 +45,8 @@ PROP = {
                'theorems (DEC modes, literal key table, xterm reference encoding of the keys, modifier convention, CPR vs F3) are '
                're-checked on regenerated data.',
  'level_note': 'Restricted statements: C04_xterm_keys_upto_mask7 (the table stops at modifier mask 7: known finding C04-key-mask, class '
-               'key-mask-ge-8 with require_agree); face reports with 7/27/39/49 follow the recorded machine (known finding, decided in Coq, '
-               'nothing suppressed); *_partial = every family except RSgr, which has C04_sgr_event. Trusted: Coq kernel + vm_compute; DFA dump hook + translate/dfa.py + translate/c04keys.py; hand-written payload '
+               'key-mask-ge-8 with require_agree); face reports / SGR events with 7/27/39/49: known finding, class sgr-inexpressible-report with '
+               'require_agree (predicate = reference machine only); *_partial = every family except RSgr, which has C04_sgr_event. Trusted: Coq kernel + vm_compute; DFA dump hook + translate/dfa.py + translate/c04keys.py; hand-written payload '
                'models validated by the correspondence run; C03 theorem (feeding any partition of the stream = munch); the printer '
                '(Decoder/Printer.v) as the meaning of the protocols. No axioms.',
  'technique': 'Coq proof (reflection: verified reachability checker over the regenerated automaton for each family grammar, '
